@@ -12,6 +12,10 @@
    asks this of the successful operations of a history only. *)
 From Coq Require Import Permutation.
 From Kava Require Import Base.Prelude Base.Dec Model.Split Model.Auction Proofs.Split Proofs.Auction.
+(* the check re-validates Base/Dec.v against cosmossdk.io/math on every run of this
+   property (min_inc uses dec_mul / dec_round_int); its case files need Model/DecCheck
+   in the same build, so it is made a dependency here *)
+From Kava Require Model.DecCheck.
 
 (** * custody, index, end <= max end: for all histories *)
 
